@@ -26,7 +26,7 @@ def plan(tier, seed):
     shards.append({'name': 'boundary-dup-trigger', 'fn': 'shard_dup_trigger', 'args': {}})
     shards.append({'name': 'pipeline', 'fn': 'shard_pipeline', 'args': {}})
     if tier == 'thorough':
-        for i, upto in enumerate([1 << 20, 1 << 20, 1 << 21, 1 << 21]):
+        for i, upto in enumerate([1 << 20, 1 << 20] + [1 << 21] * 8):
             shards.append({'name': 'large-%d' % i, 'fn': 'shard_boundary', 'args': {'kind': 'str' if i % 2 else 'hex', 'upto': upto, 'salt': i}, 'timeout': 3600})
     return shards
 
